@@ -168,6 +168,15 @@ def gen_text(rel, lo, hi):
                 st = off[ln] + len(l[:m.start()].encode())
                 muts.append({'fn': 'macro@%d' % (ln + 1), 'start': st, 'end': st + len(t.encode()), 'new': a,
                              'desc': '%s -> %s' % (t, a), 'line': ln + 1})
+    # statement deletion: a line that is one simple statement `...;` (optionally followed by a continuation backslash)
+    for ln in range(lo - 1, min(hi, len(lines))):
+        l = lines[ln]
+        m = re.match(r'^(\s*)([A-Za-z_#][^;{}]*;)(\s*\\?)\s*$', l)
+        if not m or m.group(2).startswith(('return', 'static', 'void', 'bool', 'size_t', 'TYPE', 'else')) or '(' in m.group(2) and m.group(2).rstrip().endswith(');') and ' ' in m.group(2).split('(')[0].strip() :
+            continue
+        st = off[ln] + len(m.group(1).encode())
+        muts.append({'fn': 'macro@%d' % (ln + 1), 'start': st, 'end': st + len(m.group(2).encode()), 'new': '(void)0;',
+                     'desc': 'delete statement `%s`' % m.group(2)[:50], 'line': ln + 1})
     for i, m in enumerate(muts):
         m['id'] = '%s:t%d' % (os.path.basename(rel), i)
     return muts, data
